@@ -67,6 +67,8 @@ def cases(tier, seed):
                 continue
             for e2 in evs:
                 out.append({"variant": var, "prefix": [e1, e2], "depth": depth})
+    for var, script in SCRIPTS:
+        out.append({"variant": var, "script": script})
     return out
 
 
@@ -414,7 +416,40 @@ def _name(ev):
     return {"W": "write", "A": "assemble", "C": "clear", "B": "backport", "P": "modify_patch", "P2": "modify_patch", "P3": "modify_patch", "Q": "set_default_patch", "R": "merge_patches", "N": "add", "AS": "assemble"}.get(ev, "move" if ev[0] == "M" else "delete")
 
 
+# single histories beyond the depth of the search: the depot is changed while the mesh is cleared, then assembled,
+# a vertex moved and back-ported (each is checked after every event, the oracle at its writes)
+SCRIPTS = [
+    ("two", ["A", "C", "D0", "A", "M0", "B", "W"]),
+    ("two", ["W", "C", "D1", "W", "M0", "B", "W"]),
+    ("two", ["A", "C", "D0", "W", "B", "W", "C", "W"]),
+    ("three", ["A", "C", "D1", "A", "M0", "B", "W"]),
+    ("three", ["W", "C", "D0", "W", "M1", "B", "W", "W"]),
+    ("mixed3", ["A", "C", "D0", "A", "M0", "B", "W"]),
+    ("late2", ["A", "C", "N", "W", "B", "W"]),
+    ("late2", ["W", "C", "N", "W", "M0", "B", "W"]),
+    ("late2", ["A", "N", "C", "D0", "W", "B", "W"]),
+]
+
+
+def run_script(case):
+    variant, script = case["variant"], case["script"]
+    violations = []
+    m = Model(variant)
+    hist = []
+    for ev in script:
+        if not m.enabled(ev):
+            raise AssertionError(f"scripted history {script}: {ev} is not enabled after {hist}")
+        hist.append(ev)
+        _, v, halted, m = check_history(variant, hist)
+        violations += v
+        if halted:
+            break
+    return {"violations": violations, "outcome": "script", "nontrivial": True, "execs": len(hist), "states": len(hist), "transitions": len(hist)}
+
+
 def run_case(case):
+    if "script" in case:
+        return run_script(case)
     variant = case["variant"]
     evs = events_for(variant)
     depth = case["depth"]
